@@ -59,7 +59,10 @@ func checkString(t testing.TB, c *collector, s string, report *int) {
 	}
 }
 
-var hostilePieces = []string{"a", "é", "€", "😀", "\x80", "\xff", "\xc3", "\xed\xa0\x80", "\xf0\x9f", "\x00"}
+// hostile UTF-8 alphabet: ASCII, 2/3/4-byte runes, boundary code points, a correctly encoded U+FFFD, stray continuation
+// and lead bytes, truncated sequences, surrogates, overlong encodings, code points beyond U+10FFFF
+var hostilePieces = []string{"a", "é", "€", "😀", "\x80", "\xff", "\xc3", "\xed\xa0\x80", "\xf0\x9f", "\x00",
+	"\uFFFD", "\xef\xbf", "\u07ff", "\u0800", "\uffff", "\U0010ffff", "\xc0\x80", "\xe0\x80\x80", "\xf4\x90\x80\x80", "\x7f"}
 
 func hostileBytes() []byte {
 	seen := map[byte]bool{}
@@ -81,9 +84,9 @@ func TestC10StringExhaustive(t *testing.T) {
 	c.rule(ruleC10)
 	report := 0
 	n := 0
-	maxPieces, maxBytes := 4, 4
+	maxPieces, maxBytes := 3, 3
 	if thorough() {
-		maxPieces, maxBytes = 5, 5
+		maxPieces, maxBytes = 4, 4
 	}
 	var rec func(prefix string, depth int, alphabet []string, max int)
 	rec = func(prefix string, depth int, alphabet []string, max int) {
@@ -110,6 +113,12 @@ func TestC10StringRapid(t *testing.T) {
 	c := coll("C10")
 	c.rule(ruleC10)
 	var last *Replay
+	// rapid.Check ends the test goroutine on failure (FailNow): report from a deferred call
+	defer func() {
+		if last != nil {
+			violation(t, last)
+		}
+	}()
 	rapid.Check(t, func(rt *rapid.T) {
 		var s string
 		if rapid.Bool().Draw(rt, "bytes") {
@@ -137,9 +146,6 @@ func TestC10StringRapid(t *testing.T) {
 			rt.Fatalf("%s", last.What)
 		}
 	})
-	if last != nil {
-		violation(t, last)
-	}
 }
 
 func TestC10Integer(t *testing.T) {
@@ -244,6 +250,12 @@ func TestC10Slice(t *testing.T) {
 	c := coll("C10")
 	c.rule(ruleC10)
 	var last *Replay
+	// rapid.Check ends the test goroutine on failure (FailNow): report from a deferred call
+	defer func() {
+		if last != nil {
+			violation(t, last)
+		}
+	}()
 	rapid.Check(t, func(rt *rapid.T) {
 		sc := sliceCase{
 			Init: rapid.SliceOfN(rapid.IntRange(0, 9), 0, 8).Draw(rt, "init"),
@@ -267,9 +279,6 @@ func TestC10Slice(t *testing.T) {
 			rt.Fatalf("%s", last.What)
 		}
 	})
-	if last != nil {
-		violation(t, last)
-	}
 	c.sample(map[string]any{"kind": "slice", "case": sliceCase{Init: []int{1, 2, 3}, Cap: 1, Muts: []sliceMut{{Step: 0, Op: "write", Idx: 2, Val: 100}, {Step: 1, Op: "append", Val: 101}}}})
 }
 
@@ -387,6 +396,12 @@ func TestC10MapMutation(t *testing.T) {
 	c := coll("C10")
 	c.rule(ruleC10)
 	var last *Replay
+	// rapid.Check ends the test goroutine on failure (FailNow): report from a deferred call
+	defer func() {
+		if last != nil {
+			violation(t, last)
+		}
+	}()
 	rapid.Check(t, func(rt *rapid.T) {
 		mc := mapCase{Keys: rapid.SliceOfNDistinct(rapid.IntRange(0, 12), 0, 10, rapid.ID[int]).Draw(rt, "keys")}
 		nm := rapid.IntRange(0, 5).Draw(rt, "nm")
@@ -415,9 +430,6 @@ func TestC10MapMutation(t *testing.T) {
 			rt.Fatalf("%s", last.What)
 		}
 	})
-	if last != nil {
-		violation(t, last)
-	}
 	c.sample(map[string]any{"kind": "map", "case": mapCase{Keys: []int{1, 2, 3}, Muts: []mapMut{{Step: 0, Op: "delete", Key: 2}}}})
 }
 
@@ -491,6 +503,12 @@ func TestC10Chan(t *testing.T) {
 	c := coll("C10")
 	c.rule(ruleC10)
 	var last *Replay
+	// rapid.Check ends the test goroutine on failure (FailNow): report from a deferred call
+	defer func() {
+		if last != nil {
+			violation(t, last)
+		}
+	}()
 	rapid.Check(t, func(rt *rapid.T) {
 		vals := rapid.SliceOfN(rapid.IntRange(0, 5), 0, 8).Draw(rt, "vals")
 		mode := rapid.SampledFrom([]string{"buffered-closed", "unbuffered-producer", "small-buffer-producer"}).Draw(rt, "mode")
@@ -538,8 +556,5 @@ func TestC10Chan(t *testing.T) {
 			rt.Fatalf("%s", last.What)
 		}
 	})
-	if last != nil {
-		violation(t, last)
-	}
 	c.sample(map[string]any{"kind": "chan", "vals": []int{1, 2, 3}, "mode": "unbuffered-producer"})
 }
